@@ -54,6 +54,7 @@ func c03(r *core.Run) {
 	r.Explanation = "Static rules over the reward path (functions reachable from the storage BeginBlock): (R1) no loop indexes a slice loaded from UnifiedFile.Proofs while its body passes the same file to a callee whose field-write summary may assign .Proofs (in-place removal shifts the elements under the iterator: one prover skipped, one visited twice); (R2) all CFG paths of the per-proof routine are enumerated and each performs exactly one of {credit} | {remove} | {remove, burn}, the credit only behind proven=true or young=true, the burn only behind proven=false and young=false, with the predicates fed the block height and the LastProven of the record loaded for the iterated key; (R3) the only module->account payout on the path goes to keys of the size tracker with an amount depending on the tracker entry, the total size and the pulled coins; (R4) the payout amount depends on every source of the gauge pull amount."
 	r.Assumptions = []string{T1, T3, T4}
 	r.NotDecided = []string{"size-weighted share within one base unit", "Σ paid ≤ released (numeric)"}
+	r.Rule("C03/R9", "each prover's share is converted from decimals to whole units by truncation only (never RoundInt/Ceil): the shares of one release cannot add up to more than was released")
 	r.Rule("C03/R8", "block-height arithmetic is dimensionally consistent: absolute heights (Ctx.BlockHeight and fields assigned from it) are compared only with absolute heights, intervals/offsets/parameters only with each other (point - point = span, point ± span = point), followed through helper calls with the dimensions of the actual arguments")
 	r.Rule("C03/R1", "no iteration over a prover list that the loop body may rewrite (range over file.Proofs while a callee may assign file.Proofs of the same object)")
 	r.Rule("C03/R2", "path classes of the per-proof routine: each path performs exactly one of {credit} | {remove} | {remove, burn}; credit behind {proven=true ∨ young=true}; burn behind proven=false ∧ young=false; predicate arguments ⊵ Ctx.BlockHeight and Store(FileProof).LastProven")
@@ -396,6 +397,7 @@ func c03(r *core.Run) {
 		ap := p.ProvAt(bo.Args[2], "", bo.Instr)
 		okTracker := ap.Any(func(a core.Atom) bool { return a.Kind == "param" && a.Fn == bo.Fn && strings.HasPrefix(a.Path, "[]") })
 		okTotal := ap.Any(func(a core.Atom) bool { return a.Kind == "param" && a.Fn == bo.Fn && a.Path == "" })
+		roundsDown(r, "C03/R9", "rewards:payout-rounds-down", bo.Args[2], p.InstrPos(bo.Instr))
 		r.Check(okTracker && okTotal, "C03/R3", "rewards:payout-amount", p.InstrPos(bo.Instr), "amount ⊵ {tracker entry, total size}", "the payout does not depend on the prover's counted size and the network total")
 		// R4
 		pp := p.ProvAt(pull[0].Op.Args[2], "", pull[0].Op.Instr)
